@@ -1454,7 +1454,7 @@ def check_C11(ctx):
                 k = rng.randrange(4)
                 ops.append([[0], [1, rng.getrandbits(W)], [2], [3, rng.randrange(0, len(data) // nb + 2)]][k])
                 ops.append([2])
-            pcases.append(Case([[8, W, 2], data] + ops, "adapter-pos/W%d" % W, levels=()))
+            pcases.append(Case([[8, W, 2], data] + ops, "adapter-pos/W%d" % W, levels=(2,)))
 
     # byte streams whose length is not a multiple of the word size: the tail cannot be read; seeking afterwards still
     # addresses whole words, and a word written after a seek lands at that word
@@ -1467,7 +1467,7 @@ def check_C11(ctx):
             for _ in range(rng.randrange(1, 6)):
                 k = rng.choice([nw + 1, nw, rng.randrange(0, nw + 3)])
                 ops += [[3, k], rng.choice([[0], [1, rng.getrandbits(W)], [2]]), [2]]
-            pcases.append(Case([[8, W, 2], data] + [list(o) for o in ops], "adapter-pos-ragged/W%d" % W, levels=()))
+            pcases.append(Case([[8, W, 2], data] + [list(o) for o in ops], "adapter-pos-ragged/W%d" % W, levels=(2,)))
 
     def oracle_pos(c, r):
         # reference: a byte array with a cursor; read_exact / write_all of whole words; word_pos rounds up
@@ -1513,7 +1513,7 @@ def check_C11(ctx):
         if fin is not None and list(fin[1:]) != list(img):
             return "final byte image differs from the reference: %r vs %r" % (list(fin[1:])[:40], list(img)[:40])
         return None
-    ctx.corr(pcases, what="C11 word positions", oracle=oracle_pos, levels=[])
+    ctx.corr(pcases, what="C11 word positions", oracle=oracle_pos)
     # bit streams through the adapter (plain byte sink, and a STAGING sink that only hands bytes over when it is
     # itself flushed) vs the memory image of the model; readers over the adapter on a Cursor
     wcs = [c for c in gen.gen_C01(rng, ctx.tier) if c.groups[0][8] in (2, 4)]
